@@ -46,6 +46,57 @@ func c18Check(c *Ctx, p *Prog, m *Model) {
 		return
 	}
 	file := cp.Params[0]
+	// The hardening function may be cut into private helpers (the flag-guarded part, the relative-path tail, one
+	// helper per rule): the rules below are applied to checkpath AND the private functions it reaches. A helper's
+	// parameter that always receives the original path is "the original" there; it is "under the privacy flag"
+	// when every call of it is.
+	region := []*ssa.Function{cp}
+	inRegion := map[*ssa.Function]bool{cp: true}
+	for changed := true; changed; {
+		changed = false
+		for _, fn := range append([]*ssa.Function(nil), region...) {
+			for _, cs := range callsIn(fn) {
+				if cal := calleeOf(cs); cal != nil && cal.Pkg == p.Slog && len(cal.Blocks) > 0 && cal.Object() != nil && !cal.Object().Exported() && !inRegion[cal] && cal.Signature.Recv() == nil {
+					switch nm(cal) {
+					case "IsAnyBitsSet", "IsAllBitsSet", "hintInternal":
+						continue
+					}
+					inRegion[cal] = true
+					region = append(region, cal)
+					changed = true
+				}
+			}
+		}
+	}
+	origParam := map[ssa.Value]bool{ssa.Value(file): true}
+	for round := 0; round < 4; round++ {
+		for _, fn := range region[1:] {
+			for i, prm := range fn.Params {
+				if prm.Type().String() != "string" {
+					continue
+				}
+				all, n := true, 0
+				for _, caller := range region {
+					for _, cs := range callsTo(caller, fn) {
+						n++
+						if i >= len(cs.Common().Args) || !origParam[strip(cs.Common().Args[i])] {
+							all = false
+						}
+					}
+				}
+				if all && n > 0 {
+					origParam[prm] = true
+				}
+			}
+		}
+	}
+	isOrig := func(v ssa.Value) bool { return origParam[strip(v)] }
+	keyOf := func(base string, fn *ssa.Function) string {
+		if fn == cp {
+			return base
+		}
+		return base + "@" + shortName(fn)
+	}
 	// R18.1
 	n := 0
 	for _, fn := range p.RepoFuncs() {
@@ -114,7 +165,26 @@ func c18Check(c *Ctx, p *Prog, m *Model) {
 
 	// R18.2
 	flagPriv, _ := p.ConstInt(p.Slog, "Lprivacypath")
-	isPrivGuard := func(b *ssa.BasicBlock) bool {
+	var isPrivGuard func(b *ssa.BasicBlock) bool
+	privDepth := 0
+	isPrivGuard = func(b *ssa.BasicBlock) bool {
+		if fn := b.Parent(); fn != cp && inRegion[fn] && privDepth < 4 {
+			// a helper: under the flag when every call of it (from the region) is
+			all, n := true, 0
+			privDepth++
+			for _, caller := range region {
+				for _, cs := range callsTo(caller, fn) {
+					n++
+					if !isPrivGuard(cs.Block()) {
+						all = false
+					}
+				}
+			}
+			privDepth--
+			if all && n > 0 {
+				return true
+			}
+		}
 		for _, g := range guardsOf(b) {
 			cond, neg := normCond(g.If.Cond)
 			if call, ok := cond.(*ssa.Call); ok {
@@ -129,7 +199,11 @@ func c18Check(c *Ctx, p *Prog, m *Model) {
 	}
 	// the table loop
 	var tableRewrite *ssa.Call
-	for _, cs := range callsIn(cp) {
+	var regionCalls []ssa.CallInstruction
+	for _, fn := range region {
+		regionCalls = append(regionCalls, callsIn(fn)...)
+	}
+	for _, cs := range regionCalls {
 		call, ok := cs.(*ssa.Call)
 		if !ok {
 			continue
@@ -150,10 +224,12 @@ func c18Check(c *Ctx, p *Prog, m *Model) {
 		}
 		key := "rewrite:" + strings.TrimPrefix(name, "strings.") + "@" + shortBlockRole(call, m)
 		var probs []string
-		if strip(subj) == ssa.Value(file) {
+		if isOrig(subj) && !(call.Parent() != cp && len(origParam) > 1 && firstRewriteOfParam(call, subj)) {
 			probs = append(probs, "the rewrite is applied to the ORIGINAL path argument, discarding what earlier steps (table, home directory) already replaced")
 		} else if _, isPhi := strip(subj).(*ssa.Phi); !isPhi {
-			probs = append(probs, "the subject of the rewrite is not the running (current) value: "+m.valDesc(subj))
+			if prm, isPrm := strip(subj).(*ssa.Parameter); !(isPrm && call.Parent() != cp && prm.Type().String() == "string") {
+				probs = append(probs, "the subject of the rewrite is not the running (current) value: "+m.valDesc(subj))
+			}
 		}
 		if !isPrivGuard(call.Block()) {
 			probs = append(probs, "not under the privacy-path flag")
@@ -223,11 +299,34 @@ func c18Check(c *Ctx, p *Prog, m *Model) {
 	}
 	r.Check(tableRewrite != nil, "R18.2", "table-loop", p.FuncPos(cp), "the known-path table is applied entry by entry", "checkpath no longer applies the known-path table")
 	// returns
-	rets, _ := exitBlocks(cp)
-	for i, b := range rets {
+	type retAt struct {
+		fn *ssa.Function
+		b  *ssa.BasicBlock
+		i  int
+	}
+	var allRets []retAt
+	for _, fn := range region {
+		if fn.Signature.Results().Len() != 1 || fn.Signature.Results().At(0).Type().String() != "string" {
+			continue
+		}
+		rs, _ := exitBlocks(fn)
+		for i, b := range rs {
+			allRets = append(allRets, retAt{fn, b, i})
+		}
+	}
+	for _, ra := range allRets {
+		b := ra.b
 		ret := b.Instrs[len(b.Instrs)-1].(*ssa.Return)
 		v := ret.Results[0]
-		key := fmt.Sprintf("return#%d", i)
+		key := keyOf(fmt.Sprintf("return#%d", ra.i), ra.fn)
+		if call, isCall := v.(*ssa.Call); isCall && inRegion[calleeOf(call)] {
+			r.Ok("R18.2", key+":helper", p.Pos(instrPos(ret)), "returns what the helper %s returns (judged there)", shortName(calleeOf(call)))
+			continue
+		}
+		if prm, isPrm := v.(*ssa.Parameter); isPrm && ra.fn != cp && !isOrig(prm) {
+			r.Ok("R18.2", key+":current", p.Pos(instrPos(ret)), "returns the running (hardened) value it was given")
+			continue
+		}
 		if ex, ok := v.(*ssa.Extract); ok {
 			if call, ok := ex.Tuple.(*ssa.Call); ok {
 				if cal := calleeOf(call); cal != nil && cal.String() == "path/filepath.Rel" {
@@ -247,7 +346,7 @@ func c18Check(c *Ctx, p *Prog, m *Model) {
 						cond, neg := normCond(g.If.Cond)
 						truth := (g.Succ == 0) != neg
 						if c2, ok := cond.(*ssa.Call); ok && truth {
-							if cal2 := calleeOf(c2); cal2 != nil && cal2.String() == "path/filepath.IsAbs" && strip(c2.Common().Args[0]) != ssa.Value(file) {
+							if cal2 := calleeOf(c2); cal2 != nil && cal2.String() == "path/filepath.IsAbs" && !isOrig(c2.Common().Args[0]) {
 								abs = true
 								cur = strip(c2.Common().Args[0])
 							}
@@ -279,16 +378,40 @@ func c18Check(c *Ctx, p *Prog, m *Model) {
 			r.Ok("R18.2", key+":current", p.Pos(instrPos(ret)), "returns the running (hardened) value")
 			continue
 		}
-		if v == ssa.Value(file) {
+		if isOrig(v) {
 			r.Bad("R18.2", key, p.Pos(instrPos(ret)), "the original argument is returned: the replacements are discarded")
 			continue
+		}
+		if ra.fn != cp {
+			// a helper returning an expression built from the running value it was given (and not from the original)
+			fromCur, fromOrig := false, false
+			for _, prm := range ra.fn.Params {
+				if prm.Type().String() != "string" {
+					continue
+				}
+				if dependsDirect(v, prm) {
+					if isOrig(prm) {
+						fromOrig = true
+					} else {
+						fromCur = true
+					}
+				}
+			}
+			if fromCur && !fromOrig {
+				r.Ok("R18.2", key+":current", p.Pos(instrPos(ret)), "returns a value built from the running value it was given")
+				continue
+			}
 		}
 		r.Bad("R18.2", key, p.Pos(instrPos(ret)), "unrecognised result %s", m.valDesc(v))
 	}
 
 	// R18.3 slices
 	ns := 0
-	for _, b := range cp.Blocks {
+	var regionBlocks []*ssa.BasicBlock
+	for _, fn := range region {
+		regionBlocks = append(regionBlocks, fn.Blocks...)
+	}
+	for _, b := range regionBlocks {
 		for _, in := range b.Instrs {
 			sl, ok := in.(*ssa.Slice)
 			if !ok || sl.X.Type().String() != "string" {
@@ -333,7 +456,7 @@ func c18Check(c *Ctx, p *Prog, m *Model) {
 		}
 	}
 	np := 0
-	for _, b := range cp.Blocks {
+	for _, b := range regionBlocks {
 		if _, ok := b.Instrs[len(b.Instrs)-1].(*ssa.Panic); ok {
 			np++
 		}
@@ -350,7 +473,7 @@ func c18Check(c *Ctx, p *Prog, m *Model) {
 
 	// R18.4
 	home := false
-	for _, b := range cp.Blocks {
+	for _, b := range regionBlocks {
 		for _, in := range b.Instrs {
 			call, ok := in.(*ssa.Call)
 			if !ok {
@@ -474,9 +597,19 @@ func shortBlockRole(call *ssa.Call, m *Model) string {
 func idxNonNeg(v ssa.Value, b *ssa.BasicBlock) bool {
 	for _, g := range guardsOf(b) {
 		cond, neg := normCond(g.If.Cond)
-		if bo, ok := cond.(*ssa.BinOp); ok && bo.X == v && (g.Succ == 0) != neg {
-			if z, ok := constInt(bo.Y); ok && ((bo.Op == token.GEQ && z == 0) || (bo.Op == token.GTR && z >= -1)) {
-				return true
+		if bo, ok := cond.(*ssa.BinOp); ok && bo.X == v {
+			z, isC := constInt(bo.Y)
+			if !isC {
+				continue
+			}
+			if (g.Succ == 0) != neg { // the comparison holds
+				if (bo.Op == token.GEQ && z == 0) || (bo.Op == token.GTR && z >= -1) {
+					return true
+				}
+			} else { // the comparison does not hold
+				if (bo.Op == token.LSS && z <= 0) || (bo.Op == token.LEQ && z <= -1) {
+					return true
+				}
 			}
 		}
 	}
@@ -510,4 +643,11 @@ func dependsDirect(v, target ssa.Value) bool {
 		return false
 	}
 	return walk(v)
+}
+
+// firstRewriteOfParam: in a helper, a rewrite whose subject is the helper's own path parameter is the first step
+// of that helper (the parameter IS the current value there when nothing before it in the helper rewrote it).
+func firstRewriteOfParam(call *ssa.Call, subj ssa.Value) bool {
+	_, isPrm := strip(subj).(*ssa.Parameter)
+	return isPrm
 }
